@@ -64,7 +64,8 @@ func Coord(s *core.Source, m CoordMode) float64 {
 		return math.Float64frombits(bits)
 	default:
 		return []float64{math.Copysign(0, -1), math.Inf(1), math.Inf(-1), math.MaxFloat64, -math.MaxFloat64,
-			math.SmallestNonzeroFloat64, -math.SmallestNonzeroFloat64, math.Float64frombits(0x000fffffffffffff), 0}[s.Intn(9, "special")]
+			math.SmallestNonzeroFloat64, -math.SmallestNonzeroFloat64, math.Float64frombits(0x000fffffffffffff), 0,
+			math.Float64frombits(0x7ff8000000000000), math.NaN(), math.Float64frombits(0xfff8000000000000), 1, -1}[s.Intn(14, "special")]
 	}
 }
 
@@ -82,7 +83,13 @@ func DefaultOpts() Opts {
 	return Opts{Mode: AnyBits, MaxPoints: 12, MaxParts: 4, MaxDepth: 4, TopNil: true, RingBound: true}
 }
 
-func point(s *core.Source, o Opts) orb.Point { return orb.Point{Coord(s, o.Mode), Coord(s, o.Mode)} }
+func point(s *core.Source, o Opts) orb.Point {
+	x := Coord(s, o.Mode)
+	if s.Chance(1, 10, "samexy") {
+		return orb.Point{x, x} // both coordinates the very same bit pattern
+	}
+	return orb.Point{x, Coord(s, o.Mode)}
+}
 
 func points(s *core.Source, o Opts, min int) []orb.Point {
 	ps := []orb.Point{}
